@@ -119,6 +119,10 @@ def run(prog, rep, tier):
             r2.fail(dv.name, "decode-err-as-need-more", "RtrCodec::decode maps every Message::from_bytes error (including an unknown PDU type in a complete frame) to Ok(None) = 'need more bytes': the client stops making progress", dv.loc(stall[0]))
         else:
             r2.ok("RtrCodec::decode does not turn PDU errors into 'need more bytes'")
+        # ... and "need more bytes" is said only when the buffer really is too short (a complete PDU behind a skipped one
+        # must be decoded in the same call, or the stream waits for bytes that may never come)
+        from . import c03 as _c03
+        _c03.check_need_more(prog, r2, names=(r"rustybgp_packet::<rpki::RtrCodec as tokio_util::codec::Decoder>::decode",))
         # well-formed PDUs of a type the client does not use are skipped: parsing is reached only for the types the
         # parser has an arm for, and the "supported" predicate names exactly those types
         fb = prog.find(r"rustybgp_packet::rpki::Message::from_bytes")
